@@ -397,16 +397,17 @@ def nr_rks_nldf(
     if par_atom:
         raise NotImplementedError
     else:
-        nldf_feat = []
+        # The NLDF generator keeps the data of its latest get_features call for the
+        # following get_potential call, so the feature, XC and potential passes must be
+        # completed for one density matrix before the next one is started.
         for idm in range(nset):
-            nldf_feat.append(ni.nldfgen.get_features(rho_full[idm]))
-        ip0 = 0
-        for mask, weight, coords in ni.extra_block_loop(
-            mol, grids, max_memory=max_memory, extra_ao=extra_ao
-        ):
-            ip1 = ip0 + weight.size
-            sdmx_ao, sdmx_cao = _get_sdmx_orbs(ni, mol, coords, None)
-            for idm in range(nset):
+            nldf_feat = ni.nldfgen.get_features(rho_full[idm])
+            ip0 = 0
+            for mask, weight, coords in ni.extra_block_loop(
+                mol, grids, max_memory=max_memory, extra_ao=extra_ao
+            ):
+                ip1 = ip0 + weight.size
+                sdmx_ao, sdmx_cao = _get_sdmx_orbs(ni, mol, coords, None)
                 rho = rho_full[idm, :, ip0:ip1]
                 if ni.has_sdmx:
                     sdmx_feat = ni.sdmxgen.get_features(
@@ -417,7 +418,7 @@ def nr_rks_nldf(
                 exc, (vxc, vxc_nldf, vxc_sdmx) = ni.eval_xc_cider(
                     xc_code,
                     rho,
-                    nldf_feat[idm][:, ip0:ip1],
+                    nldf_feat[:, ip0:ip1],
                     sdmx_feat,
                     deriv=1,
                     xctype=xctype,
@@ -429,8 +430,7 @@ def nr_rks_nldf(
                 nelec[idm] += den.sum()
                 excsum[idm] += np.dot(den, exc)
                 wv_full[idm, :, ip0:ip1] = weight * vxc
-            ip0 = ip1
-        for idm in range(nset):
+                ip0 = ip1
             wv_full[idm, :, :] += ni.nldfgen.get_potential(vxc_nldf_full[idm])
 
     buffers = None
@@ -532,23 +532,22 @@ def nr_uks_nldf(
     if par_atom:
         raise NotImplementedError
     else:
-        nldf_feat = []
+        # The NLDF generator keeps the data of its latest get_features call (per spin)
+        # for the following get_potential call, so the feature, XC and potential passes
+        # must be completed for one density matrix before the next one is started.
         for idm in range(nset):
-            nldf_feat.append(
-                np.stack(
-                    [
-                        ni.nldfgen.get_features(rhoa_full[idm], spin=0),
-                        ni.nldfgen.get_features(rhob_full[idm], spin=1),
-                    ]
-                )
+            nldf_feat = np.stack(
+                [
+                    ni.nldfgen.get_features(rhoa_full[idm], spin=0),
+                    ni.nldfgen.get_features(rhob_full[idm], spin=1),
+                ]
             )
-        ip0 = 0
-        for mask, weight, coords in ni.extra_block_loop(
-            mol, grids, max_memory=max_memory, extra_ao=extra_ao
-        ):
-            ip1 = ip0 + weight.size
-            sdmx_ao, sdmx_cao = _get_sdmx_orbs(ni, mol, coords, None)
-            for idm in range(nset):
+            ip0 = 0
+            for mask, weight, coords in ni.extra_block_loop(
+                mol, grids, max_memory=max_memory, extra_ao=extra_ao
+            ):
+                ip1 = ip0 + weight.size
+                sdmx_ao, sdmx_cao = _get_sdmx_orbs(ni, mol, coords, None)
                 rho_a = rhoa_full[idm, :, ip0:ip1]
                 rho_b = rhob_full[idm, :, ip0:ip1]
                 rho = (rho_a, rho_b)
@@ -565,7 +564,7 @@ def nr_uks_nldf(
                 exc, (vxc, vxc_nldf, vxc_sdmx) = ni.eval_xc_cider(
                     xc_code,
                     rho,
-                    nldf_feat[idm][..., ip0:ip1],
+                    nldf_feat[..., ip0:ip1],
                     sdmx_feat,
                     deriv=1,
                     xctype=xctype,
@@ -581,8 +580,7 @@ def nr_uks_nldf(
                 excsum[idm] += np.dot(den_b, exc)
                 wva_full[idm, :, ip0:ip1] = weight * vxc[0]
                 wvb_full[idm, :, ip0:ip1] = weight * vxc[1]
-            ip0 = ip1
-        for idm in range(nset):
+                ip0 = ip1
             wva_full[idm, :, :] += ni.nldfgen.get_potential(
                 vxc_nldf_full[idm, 0], spin=0
             )
